@@ -192,6 +192,7 @@ def main(argv=None):
     ap.add_argument("--seed", type=int, default=int(os.environ.get("VERIF_SEED", "0")))
     ap.add_argument("--only", default=None, help="substring filter on job ids (debugging; evidence is not written)")
     ap.add_argument("--update-ledger", action="store_true")
+    ap.add_argument("--sync-hashes", action="store_true", help="only refresh the source hashes of the functions under contract in the ledger (no jobs are run)")
     ap.add_argument("--file", default=None)
     a = ap.parse_args(argv)
     pid = a.property
@@ -205,6 +206,16 @@ def main(argv=None):
         return 0 if not res.get("reproduced") else 1
 
     jobs = mod.jobs(a.tier, a.seed)
+    if a.sync_hashes:
+        led = load_ledger(pid)
+        h = dict(led.get("hashes", {}))
+        for f in sorted({f for j in jobs for f in j.get("functions", [])}):
+            h[f] = source_hash(f)
+        led["hashes"] = h
+        os.makedirs(os.path.join(ROOT, "ledger"), exist_ok=True)
+        json.dump(led, open(os.path.join(ROOT, "ledger", pid + ".json"), "w"), indent=1, sort_keys=True)
+        print(f"{pid}: {len(h)} source hashes refreshed")
+        return 0
     if a.only:
         jobs = [j for j in jobs if a.only in j["id"]]
     if not jobs:
